@@ -8,7 +8,11 @@ WT="$1"; shift
 mkdir -p /tmp/try_patch_out /tmp/simcopy; cp /verif/known_findings.json /tmp/try_patch_out/
 rsync -a --delete --exclude target /verif/sim/ /tmp/simcopy/sim/
 sed -i "s#/repo/#$WT/#g" /tmp/simcopy/sim/Cargo.toml
-( cd /tmp/simcopy/sim && CARGO_TARGET_DIR=/tmp/simcopy/target cargo build --release --offline 2>&1 | grep -E "^error" -A8 )
+if ! ( cd /tmp/simcopy/sim && CARGO_TARGET_DIR=/tmp/simcopy/target cargo build --release --offline > /tmp/simcopy/build.log 2>&1 ); then
+  grep -E "^error" -A8 /tmp/simcopy/build.log | head -40
+  echo "HARNESS-ERROR: building the harness against $WT failed; nothing was run"
+  exit 2
+fi
 for id in "$@"; do
   out=$(VERIF_DIR=/tmp/try_patch_out /tmp/simcopy/target/release/patsim check "$id" 2>&1)
   code=$?
